@@ -288,6 +288,12 @@ def draw_invocation(rng: random.Random, design_fraction: float) -> dict:
             inv["io_faults"] = [{"kind": kind, "nth": nth, "errno": rng.choice([errno.ENOSPC, errno.EIO, errno.EACCES]),
                                  "partial": rng.random() < 0.6, "frac": round(rng.random(), 3),
                                  "creates_empty": rng.random() < 0.5}]
+            if kind == "write" and rng.random() < 0.5:
+                # aim at one particular file: its n-th write (SimulationSummary.* are written with a single write)
+                target = rng.choice(OUTPUT_FILES)
+                inv["io_faults"][0]["file"] = target
+                inv["io_faults"][0]["nth"] = 1 if target.startswith("SimulationSummary") else rng.choice(
+                    [1, 2, rng.randint(1, 12), rng.randint(1, 8761) if target == "Loadings.csv" else rng.randint(1, 60)])
         elif mode == "convert_idf":
             inv["flags"] = "convert_idf_after"
             if rng.random() < 0.5:
@@ -560,7 +566,7 @@ def run_plan(job: dict) -> dict:
     observations, stats = execute_job(job, fidelity_every)
     log = EventLog()
     count = {"invocations": len(observations), "design_real_calls": stats["design_real_calls"]}
-    sets = {"fault_sites": set(), "io_fault_files": set(), "flags_verdict_status": set()}
+    sets = {"fault_sites": set(), "io_fault_files": set(), "flags_verdict_status": set(), "invocation_digests": set()}
     viols = []
     tags = []
     for obs in observations:
@@ -581,6 +587,8 @@ def run_plan(job: dict) -> dict:
         if "real_status" in obs:
             count["real_process_fidelity_runs"] = count.get("real_process_fidelity_runs", 0) + 1
         sets["fault_sites"].add(obs["fault"])
+        sets["invocation_digests"].add(digest([job["index"], obs["flags"], obs["fault"], inv_seed(job, obs["j"]), obs["status"],
+                                               obs.get("out_problems"), obs["io_fired"]])[:16])
         sets["flags_verdict_status"].add(f"{obs['flags']}:{obs['verdict']}:{0 if obs['status'] == 0 else 'nz'}")
         try:
             tags.append(ORACLES[prop](obs))
@@ -606,6 +614,13 @@ def run_plan(job: dict) -> dict:
     r["violation"] = viols[0]
     r["more_violations"] = viols[1:]
     return r
+
+
+def inv_seed(job, j):
+    try:
+        return job["invocations"][j]["seed"]
+    except (IndexError, KeyError):
+        return j
 
 
 def run_many(jobspec: dict) -> dict:
